@@ -12,7 +12,7 @@ import json, os, re, glob
 import fw
 
 ALPH = 'ACGT'
-Q_MAIN = ''.join(chr(c) for c in range(33, 85))      # '!'..'T'  (phred 0..51): below the header clamp (D2, C04)
+Q_MAIN = ''.join(chr(c) for c in range(33, 85))      # '!'..'T'  (phred 0..51): below the header clamp of C04
 Q_FULL = ''.join(chr(c) for c in range(33, 127))     # every Sanger quality 0..93
 UID0 = 10000
 UID_RE = re.compile(r'(?<!\d)(1\d{4})(?!\d)')
@@ -98,7 +98,7 @@ class Prop(fw.PropBase):
         if any(n_.lower().endswith('se') for n_ in strategies) and rng.random() < 0.8:
             nm = 1      # the *_SINGLE_END strategies refuse tuples of two
         n = rng.choice([0, 1, 2, 3, 4, 5, 6, 8, 10, 12] if quick else [0, 1, 2, 3, 5, 8, 12, 16, 24, 30])
-        qalph = Q_FULL if stream == 'phred' else Q_MAIN
+        qalph = Q_FULL if stream == 'phred' or rng.random() < 0.4 else Q_MAIN   # D2 (clamp) is repaired: every phred 0..93
         known_idx = desc['indices']
         forms = ['full'] * 6 + ['noindex', 'short7', 'scmo', '3dec']
         if stream == 'malformed':
@@ -176,6 +176,25 @@ class Prop(fw.PropBase):
                 'rejects': rng.random() < 0.75, 'sc': rng.random() < 0.25, 'maxp': maxp, 'lib': lib,
                 'pe_handle': pe_handle, 'meta': meta}
 
+    def make_main_case(self):
+        """several lanes of one library through the command line driver (demux.py __main__): the lanes are processed in
+        order with one shared budget -n, so the expected outcome is that of the concatenated library with maxReadPairs = n"""
+        rng = self.rng
+        while True:
+            c = self.make_library('main')
+            if len(c['files']) <= 2 and len(c['meta']) >= 2:
+                break
+        n = len(c['meta'])
+        k = rng.choice([1, 2, 2, 2, 3, 3])
+        cuts = sorted(rng.randint(0, n) for _ in range(k - 1))
+        sizes = [b - a for a, b in zip([0] + cuts, cuts + [n])]
+        sizes = [x for x in sizes if x > 0] or [n]
+        c.update({'stream': 'main_script', 'main_script': True, 'lane_sizes': sizes, 'lib': 'LIBA', 'eol': '\n',
+                  'pe_handle': len(c['files']) == 2,
+                  'maxp': rng.choice([None, 1, max(1, n - 1), n, n + 2, max(1, sizes[0]), sizes[0] + 1, sizes[0] + 1,
+                                      rng.randint(1, n)])})
+        return c
+
     def make_reader_case(self):
         rng = self.rng
         nm = rng.choice([1, 2, 2, 3])
@@ -219,6 +238,8 @@ class Prop(fw.PropBase):
             cases.append(self.make_library('longlib'))
         for _ in range(80 if quick else 800):
             cases.append(self.make_reader_case())
+        for _ in range(8 if quick else 60):
+            cases.append(self.make_main_case())
         return cases
 
     def exhaustive_cases(self):
@@ -657,7 +678,7 @@ class Prop(fw.PropBase):
                               for f in cur['files']]
                 d['meta'] = [cur['meta'][p] for p in idx]
                 return self.renumber(d)
-            if whole and n > 1:
+            if whole and n > 1 and not cur.get('main_script'):
                 cands += [keep([p]) for p in range(n)]
                 cands += [keep(list(range(p + 1))) for p in range(n - 1)]
                 if n <= 8:
@@ -714,7 +735,6 @@ class Prop(fw.PropBase):
         return False
 
     def matches(self, finding, witness):
-        # narrow: only an abort caused by a reject header that cannot be formatted (over-long library name)
-        if finding.get('key') == 'crash:reject-header-overflow' and witness.get('key') == 'crash_overflow':
-            return True
+        # the recorded finding (abort on a reject header that cannot be formatted) lies outside the theorems' precondition
+        # (res_crashed = false) and never yields a witness; every witness search() produces is a new violation
         return False
